@@ -166,6 +166,56 @@ pub fn check_sort(rep: &mut Rep, v: Vec<Duration>) {
     want.sort();
     let n = v.len();
     let first = v.first().map(|d| d.to_parts());
+    // everything else the standard library derives from the order: partial_cmp as a sort key, BTreeSet order, binary search,
+    // Iterator::max / min, clamp of every element to the window its neighbours span
+    {
+        let v2 = v.clone();
+        match guard(move || {
+            let mut pc = v2.clone();
+            pc.sort_by(|a, b| a.partial_cmp(b).unwrap());
+            let set: std::collections::BTreeSet<Duration> = v2.iter().copied().collect();
+            let mut st = v2.clone();
+            st.sort();
+            let found: Vec<bool> = v2.iter().map(|d| st.binary_search(d).map(|i| count_d(st[i]) == count_d(*d)).unwrap_or(false)).collect();
+            let clamps: Vec<(i128, i128, i128, i128)> = (0..v2.len().saturating_sub(2)).map(|i| {
+                let (x, p, q) = (v2[i], v2[i + 1], v2[i + 2]);
+                let (lo, hi) = if count_d(p) <= count_d(q) { (p, q) } else { (q, p) };
+                (count_d(x), count_d(lo), count_d(hi), count_d(Ord::clamp(x, lo, hi)))
+            }).collect();
+            (pc, set.into_iter().collect::<Vec<_>>(), found, v2.iter().copied().max(), v2.iter().copied().min(), clamps, v2.iter().copied().max_by(|a, b| a.partial_cmp(b).unwrap()), v2.iter().copied().min_by_key(|d| *d))
+        }) {
+            Err(e) => rep.fail(&format!("sort/panic/{}", e.class()), None, || format!("ordering {n} durations through the standard library panicked: {} at {}", e.msg, e.loc)),
+            Ok((pc, set, found, mx, mn, clamps, mxb, mnk)) => {
+                let g: Vec<i128> = pc.iter().map(|d| count_d(*d)).collect();
+                if g != want {
+                    rep.fail("sort/std-consumer", None, || format!("sort_by(partial_cmp) of {n} durations is not the sorted permutation"));
+                }
+                let mut uniq = want.clone();
+                uniq.dedup();
+                let g: Vec<i128> = set.iter().map(|d| count_d(*d)).collect();
+                // (BTreeSet::from_iter sorts and then merges *adjacent keys that are ==*: the documented equality of a duration
+                // and its exact negation within one century of zero may merge such a pair - the only difference left open)
+                let ascending = g.windows(2).all(|w| w[0] < w[1]);
+                let explained = uniq.iter().filter(|x| !g.contains(x)).all(|m| m.abs() < NPC && g.contains(&-m)) && g.iter().all(|x| uniq.contains(x));
+                if g != uniq && !(ascending && explained) {
+                    rep.fail("sort/std-consumer", None, || format!("a BTreeSet of {n} durations iterates {} values, want the {} distinct counts in order; missing {:?}, got {:?}", g.len(), uniq.len(), uniq.iter().filter(|x| !g.contains(x)).collect::<Vec<_>>(), g));
+                }
+                if found.iter().any(|f| !f) {
+                    rep.fail("sort/std-consumer", None, || format!("binary_search in the sorted vector of {n} durations does not find one of its own elements"));
+                }
+                for (name, got, wv) in [("Iterator::max", mx, want.last()), ("Iterator::max_by(partial_cmp)", mxb, want.last()), ("Iterator::min", mn, want.first()), ("Iterator::min_by_key", mnk, want.first())] {
+                    if got.map(count_d) != wv.copied() {
+                        rep.fail("sort/std-consumer", None, || format!("{name} of {n} durations = {:?}, want count {:?}", got.map(|d| d.to_parts()), wv));
+                    }
+                }
+                for (x, lo, hi, got) in clamps {
+                    if got != x.clamp(lo, hi) {
+                        rep.fail("sort/clamp", None, || format!("Ord::clamp of count {x} to [{lo}, {hi}] = {got}, want {}", x.clamp(lo, hi)));
+                    }
+                }
+            }
+        }
+    }
     match guard(move || {
         let mut w = v.clone();
         w.sort();
